@@ -256,13 +256,14 @@ PROPS = {
     },
     "C28": {
         "title": "Custom sections are preserved and edited exactly",
-        "units": ["V6b_api2", "V12_sections", "V16_comp_emit", "V10_parse"],
+        "units": ["V6b_api2", "V12_sections", "V16_comp_emit", "V10_parse", "V19_parse_code"],
         "obligations": ["V6b_api2.CustomSections.*", "V6b_api2.fn:CustomSections::*", "V6b_api2.fn:CustomSection::new_borrowed",
                         # components: the custom-section arm of Component::encode_comp
                         "V16_comp_emit.emit_custom_sections.*", "V16_comp_emit.fn:Component::emit_custom_sections", "V16_comp_emit.fn:CustomSections::get_by_id", "V16_comp_emit.fn:CustomSections::len",
-                        "V10_parse.parse_comp_custom_section.*", "V10_parse.fn:Component::parse_comp_custom_section"],
+                        "V10_parse.parse_comp_custom_section.*", "V10_parse.fn:Component::parse_comp_custom_section",
+                        "V19_parse_code.store_custom_section*", "V19_parse_code.fn:Module::store_custom_section*"],
         "obligations_extra": V12_CUSTOM,
-        "glue": V12_TRUST + ["parsing custom sections into the collection (name-section exclusion) and emitting them (order) happen in parse_internal / encode_internal: not under contract",
+        "glue": V12_TRUST + ["parsing: the two sites of parse_internal (and the one of parse_comp) that store a custom section other than the name section are regions (name and bytes as read, behind the others) and CustomSections::new turns the pairs into the collection; WHICH custom sections count as the name section (as_known) is the reader's decision; emission: V12 (modules), V16 (components), V17 (behind the name section)",
                  "CustomSections::get_section_data_mut (Cow::to_mut) is not under contract; CustomSections::new is (rule R22: one section per (name, bytes) pair read, in order)"],
         "design_ref": "DESIGN.md §5 C28",
         "level_text": "The collection behaves as a sequence: add appends and returns the new index, delete removes exactly the addressed entry and keeps the order of the others, get_by_id returns exactly the addressed entry; for all contents and ids.",
